@@ -8,6 +8,7 @@ import (
 	"os"
 	"os/exec"
 	"runtime"
+	"sort"
 	"strings"
 	"sync"
 	"time"
@@ -19,6 +20,7 @@ import (
 	txtypes "github.com/cosmos/cosmos-sdk/types/tx"
 	"github.com/cosmos/cosmos-sdk/types/tx/signing"
 	"github.com/cosmos/gogoproto/proto"
+	"github.com/ethereum/go-ethereum/common"
 	"github.com/ethereum/go-ethereum/core/types/goattypes"
 	goatmodtypes "github.com/goatnetwork/goat/x/goat/types"
 	"google.golang.org/protobuf/encoding/protowire"
@@ -141,6 +143,12 @@ func c19State(name string) *enga.World {
 			if rr := w.Run(b); rr.Err != nil {
 				panic(rr.Err)
 			}
+		}
+	}
+	if name == "removal-queued" {
+		// a voter's removal is already queued for the next election
+		if rr := w.Run(enga.ABlock{Events: []enga.Event{{Kind: "req:removevoter"}}}); rr.Err != nil {
+			panic(rr.Err)
 		}
 	}
 	if name == "busy" {
@@ -276,8 +284,33 @@ func c19Cases(w *enga.World, state string, thorough bool) []*c19Case {
 		"rbf-unknown-id":    {append([]byte{goattypes.ReplaceByFeeRequestType}, make([]byte, 16)...)},
 		"cancel-unknown-id": {append([]byte{goattypes.Cancel1RequestType}, make([]byte, 8)...)},
 	}
-	for name, rq := range reqs {
-		name, rq := name, rq
+	// well-formed membership requests that the relayer module has to weigh against what is already queued
+	{
+		rel, _ := w.Relayer()
+		rm := func(addrs ...string) [][]byte {
+			var rr goattypes.RelayerRequests
+			for _, a := range addrs {
+				acc, err := sdk.AccAddressFromBech32(a)
+				must(err)
+				rr.Removes = append(rr.Removes, &goattypes.RemoveVoterRequest{Voter: common.BytesToAddress(acc)})
+			}
+			return rr.Encode()
+		}
+		reqs["remove-proposer"] = rm(rel.Proposer)
+		reqs["remove-all-members"] = rm(append([]string{rel.Proposer}, rel.Voters...)...)
+		reqs["remove-proposer-twice"] = rm(rel.Proposer, rel.Proposer)
+		if len(rel.Voters) > 0 {
+			reqs["remove-voter"] = rm(rel.Voters[0])
+			reqs["remove-voter-then-proposer"] = rm(rel.Voters[0], rel.Proposer)
+		}
+	}
+	names := make([]string, 0, len(reqs))
+	for name := range reqs {
+		names = append(names, name)
+	}
+	sort.Strings(names) // workers rebuild this list and address cases by index
+	for _, name := range names {
+		name, rq := name, reqs[name]
 		tx, _, err := w.N.BuildEthBlockTx(sim.EthBlockOpts{Rehash: true, MutatePayload: func(p *goatmodtypes.ExecutionPayload) {
 			if name == "trailing-bytes" || name == "two-gas" {
 				p.Requests = rq
@@ -408,6 +441,19 @@ func c19Deliver(w *enga.World, c *c19Case) (class, msg, outcome string) {
 	must(x.N.Commit(blk, txs, fr))
 	idx := len(txs) - 1
 	if fr.TxResults[idx].Code == 0 {
+		if c.Kind == "proposal" {
+			// what an applied proposal (request list) left behind must not stop the blocks after it,
+			// including the one that holds the next relayer election
+			for _, nb := range []enga.ABlock{{Dt: 7}, {Dt: 1}} {
+				var rr *enga.Result
+				if p := guard("follow-up", func() { rr = x.Run(nb) }); p != nil {
+					return "panic-in-block-after-applied-proposal", fmt.Sprint(p), ""
+				}
+				if rr.Err != nil {
+					return "block-processing-halts-after-applied-proposal", fmt.Sprintf("%s: %v", rr.Stage, rr.Err), ""
+				}
+			}
+		}
 		return "", "", "applied"
 	}
 	ref, err := w.Fork()
@@ -438,11 +484,11 @@ func C19Worker(state string, from, to int, thorough bool) {
 }
 
 func runC19(r *mc.Run) {
-	r.Rule = "for two reachable states (fresh; busy: voted hashes, deposits, pending/processing/cancelling withdrawals, pending voter): every single wire-level mutation (drop, duplicate, boundary integers, empty / +1 / -1 / bit-flipped / 33-byte / 1-byte strings, recursively two levels deep) of a well-formed instance of every relayer and bridge message, correctly signed so that it reaches the handler; vote bitmaps of every length 0..33; truncations and wire mutations of the raw transaction; wire mutations of the execution-block message and an execution-layer request grammar; each delivered through CheckTx, ProcessProposal and FinalizeBlock in crash-contained worker processes"
+	r.Rule = "for three reachable states (fresh; busy: voted hashes, deposits, pending/processing/cancelling withdrawals, pending voter; a voter removal already queued): every single wire-level mutation (drop, duplicate, boundary integers, empty / +1 / -1 / bit-flipped / 33-byte / 1-byte strings, recursively two levels deep) of a well-formed instance of every relayer and bridge message, correctly signed so that it reaches the handler; vote bitmaps of every length 0..33; truncations and wire mutations of the raw transaction; wire mutations of the execution-block message and an execution-layer request grammar (malformed items and well-formed membership removals), an applied proposal being followed by the election block and one more; each delivered through CheckTx, ProcessProposal and FinalizeBlock in crash-contained worker processes"
 	r.Assumptions = []string{"a proposal rejected by ProcessProposal is not forced into FinalizeBlock (honest validators never finalise it; engine verdicts at finalisation are C09's subject)", "account sequences are not part of 'state exactly as it was'"}
 	self, err := os.Executable()
 	must(err)
-	states := []string{"fresh", "busy"}
+	states := []string{"fresh", "busy", "removal-queued"}
 	if r.Thorough() {
 		states = append(states, "elected")
 	}
